@@ -117,6 +117,8 @@ def _judge(snap, res, exc, graph, target_outcomes, target_interventions, surroga
     names = {v.name for v in ref.V}
     doms = _domains(surrogate_outcomes, surrogate_interventions) if set(surrogate_outcomes) == set(surrogate_interventions) else None
     case = {"graph": mon_id.gd_of(ref), "X": sorted(v.name for v in X), "Y": sorted(v.name for v in Y), "domains": doms}
+    if mon_id.cards_hint():
+        case["cards"] = mon_id.cards_hint()
     allv = set().union(*surrogate_outcomes.values(), *surrogate_interventions.values()) if surrogate_outcomes or surrogate_interventions else set()
     valid = (doms is not None and ref.is_acyclic() and X and Y and not (X & Y) and (X | Y | allv) <= set(ref.V)
              and all(set(surrogate_outcomes[p]) and set(surrogate_interventions[p])
@@ -171,7 +173,8 @@ def _judge(snap, res, exc, graph, target_outcomes, target_interventions, surroga
     if bad:
         kernel.violation("C06", "vocabulary-trso", f"transport estimand {res} for {case}: {bad[:3]}", case=case,
                          mech=classify("vocabulary"))
-    if not CONFIG["semantic"] or len(ref.V) > CONFIG["max_nodes_semantic"]:
+    live = len(ref.V) - sum(1 for v in ref.V if mon_id.cards_hint().get(v.name) == 1)
+    if not CONFIG["semantic"] or live > CONFIG["max_nodes_semantic"] or len(ref.V) > 16:
         return
     check_family(res, ref, X, Y, diff, case)
 
